@@ -80,7 +80,7 @@ const REFS: [&str; 8] = ["A0", "A1", "A2", "A3", "nope", "ghost", "", " "];
 fn name_strategy() -> impl Strategy<Value = String> {
     prop_oneof![
         4 => prop::collection::vec(prop::sample::select(vec!['a', 'b', ':', ':']), 0..=8).prop_map(|v| v.into_iter().collect::<String>()),
-        4 => prop::collection::vec(prop::sample::select(vec!["a", "b", "ab", "é", "::", "::", ":", "::::"]), 1..=5).prop_map(|v| v.concat()),
+        4 => prop::collection::vec(prop::sample::select(vec!["a", "b", "ab", "é", "::", "::", ":", "::::", "\u{43a}", "\u{13a}", "\u{a73a}\u{23a}", "я\u{43a}о"]), 1..=5).prop_map(|v| v.concat()),
         3 => prop::collection::vec(prop::sample::select(vec!["a", "b", "ab", "aa"]), 1..=3).prop_map(|v| v.join("::")),
     ]
 }
@@ -419,7 +419,7 @@ pub fn replay(part: &str, case: serde_json::Value) -> Option<CaseResult> {
 pub fn meta() -> EvidenceMeta {
     EvidenceMeta {
         level: "exploration",
-        rule: "cases = builder inputs: multiset of appender names over a 4-name pool (duplicates likely, each occurrence a distinguishable capture appender), 0-6 loggers whose names come from strings over {a,b,:}, concatenations of components and colon runs, well-formed paths, and duplicates of earlier names with different content; references drawn from pool + 2 nonexistent names with repeats; plus the exhaustive sweep of all 3280 names over {a,b,:} up to length 7. Oracle: name validity written from the statement (non-empty, every colon run of length exactly 2, none trailing; runs of even length >= 4 are unsettled: either outcome accepted); build() Ok iff no offence; every reported error names a real offence of its kind (counted) and every offending item is covered; build_lossy's Config accessors equal the valid part (first occurrence wins, dangling references stripped, original order); every returned Config is installed and probed under catch_unwind and deliveries equal route() on the valid part, from first-occurrence appenders only. Appender names include the empty string and a blank; the builders are reached through Config::builder() / ConfigBuilder::default(), Logger::builder() / LoggerBuilder::default() and mixes of singular and bulk calls; two fixed inputs carry 400 / 1000+ offending items. non-trivial = >=2 offence kinds, or an invalid name of length >=3 containing '::', or a duplicate whose second occurrence differs".into(),
+        rule: "cases = builder inputs: multiset of appender names over a 4-name pool (duplicates likely, each occurrence a distinguishable capture appender), 0-6 loggers whose names come from strings over {a,b,:}, concatenations of components (incl. letters whose code point ends in the byte 0x3A, like U+043A) and colon runs, well-formed paths, and duplicates of earlier names with different content; references drawn from pool + 2 nonexistent names with repeats; plus the exhaustive sweep of all 3280 names over {a,b,:} up to length 7. Oracle: name validity written from the statement (non-empty, every colon run of length exactly 2, none trailing; runs of even length >= 4 are unsettled: either outcome accepted); build() Ok iff no offence; every reported error names a real offence of its kind (counted) and every offending item is covered; build_lossy's Config accessors equal the valid part (first occurrence wins, dangling references stripped, original order); every returned Config is installed and probed under catch_unwind and deliveries equal route() on the valid part, from first-occurrence appenders only. Appender names include the empty string and a blank; the builders are reached through Config::builder() / ConfigBuilder::default(), Logger::builder() / LoggerBuilder::default() and mixes of singular and bulk calls; two fixed inputs carry 400 / 1000+ offending items. non-trivial = >=2 offence kinds, or an invalid name of length >=3 containing '::', or a duplicate whose second occurrence differs".into(),
         assumptions: vec!["a colon run of even length >= 4 ('a::::b') is not settled by the statement; both outcomes are accepted and counted".into()],
         mutants_caught: vec![],
     }
